@@ -22,6 +22,11 @@ from vlib.core import strlit, listlit, boollit
 from vlib.py2v import Untranslatable, dotted
 
 
+# dialect names <-> identities used in the Coq terms (configuration values are compared as identities)
+DIALECT_IDS = {"duckdb": 11, "spark": 12, "snowflake": 13, "bigquery": 14, "postgres": 15, "redshift": 16, "databricks": 17}
+SLOTS = {"input_dialect": 0, "output_dialect": 1, "execution_dialect": 2}
+
+
 def dump(node) -> str:
     return ast.dump(node, annotate_fields=True, include_attributes=False)
 
@@ -478,15 +483,114 @@ def base_session_facts(repo: str):
     sc = [n for n in b.body if isinstance(n, ast.FunctionDef) and n.name == "_set_config"]
     if len(sc) != 1:
         raise Untranslatable("Builder._set_config not found")
-    found = False
-    for n in ast.walk(sc[0]):
-        if isinstance(n, ast.If) and dump(n.test) == dump(stmt("key == self.SQLFRAME_CONN_KEY").value) \
-                and len(n.body) == 1 and same(n.body[0], 'self._session_kwargs["conn"] = value'):
-            found = True
-    if not found:
+    chain, mapkeys = set_config_facts(sc[0], consts)
+    if (consts["SQLFRAME_CONN_KEY"], 3) not in chain or dict(chain).get(consts["SQLFRAME_CONN_KEY"]) != 3:
         raise Untranslatable("Builder._set_config no longer routes SQLFRAME_CONN_KEY to the session's conn argument")
-    return {"singleton_global": glob, "builder_conn_key": consts["SQLFRAME_CONN_KEY"],
-            "hash": py2v.src_hash(new[0], src) + "/" + py2v.src_hash(goc[0], src)}
+    # __init__: the three dialect attributes start from the DEFAULT_* class constants
+    init = [n for n in b.body if isinstance(n, ast.FunctionDef) and n.name == "__init__"]
+    if len(init) != 1:
+        raise Untranslatable("Builder.__init__ not found")
+    for attr in SLOTS:
+        want = f"self.{attr} = self.DEFAULT_{attr.upper()}"
+        if not any(same(st, want) for st in init[0].body):
+            raise Untranslatable(f"Builder.__init__ no longer starts {attr} from DEFAULT_{attr.upper()}")
+    ssp = [n for n in b.body if isinstance(n, ast.FunctionDef) and n.name == "_set_session_properties"]
+    if len(ssp) != 1:
+        raise Untranslatable("Builder._set_session_properties not found")
+    body = strip_doc(ssp[0].body)
+    for attr in SLOTS:
+        want = f"self.session.{attr} = Dialect.get_or_raise(self.{attr})"
+        if sum(1 for st in body if same(st, want)) != 1:
+            raise Untranslatable(f"_set_session_properties no longer copies the Builder's {attr} onto the session")
+    for st in body:
+        if isinstance(st, ast.Assign) and not any(same(st, f"self.session.{a} = Dialect.get_or_raise(self.{a})") for a in SLOTS):
+            raise Untranslatable("_set_session_properties: unexpected assignment")
+    defaults = {k: v for k, v in consts.items() if k.startswith("DEFAULT_")}
+    return {"singleton_global": glob, "builder_conn_key": consts["SQLFRAME_CONN_KEY"], "chain": chain, "mapkeys": mapkeys,
+            "defaults": defaults,
+            "hash": py2v.src_hash(new[0], src) + "/" + py2v.src_hash(goc[0], src) + "/" + py2v.src_hash(sc[0], src)}
+
+
+def set_config_facts(fn: ast.FunctionDef, consts: dict):
+    """Builder._set_config -> (chain, mapkeys).
+    chain:   the `if value is not None:` block must be ONE if/elif chain of `key == self.<CONST>` tests ending in an else
+             that stores an opaque kwarg; each branch is one assignment to self.<dialect attr> or self._session_kwargs[...].
+             Result: [(key string, slot)] in chain order (the model takes the first match, as Python does).
+    mapkeys: the `if map:` block must be a sequence of `if self.<CONST> in map: <target> = map[self.<CONST>]`."""
+    body = strip_doc(fn.body)
+    if len(body) != 2 or not all(isinstance(x, ast.If) and not x.orelse for x in body):
+        raise Untranslatable("_set_config: expected `if value is not None:` and `if map:`")
+    b0, b1 = body
+    if dump(b0.test) != dump(stmt("value is not None").value) or dotted(b1.test) != "map":
+        raise Untranslatable("_set_config: guards changed")
+
+    def const_key(node):
+        d = dotted(node)
+        if not d or not d.startswith("self.") or d[5:] not in consts:
+            raise Untranslatable(f"_set_config: key {d} is not a Builder constant")
+        return consts[d[5:]]
+
+    def target_slot(tgt, valsrc):
+        d = dotted(tgt)
+        if d and d.startswith("self.") and d[5:] in SLOTS:
+            return SLOTS[d[5:]]
+        if isinstance(tgt, ast.Subscript) and dotted(tgt.value) == "self._session_kwargs" and isinstance(tgt.slice, ast.Constant):
+            return {"conn": 3, "schema": 4}.get(tgt.slice.value, 9)
+        raise Untranslatable("_set_config: assignment target not understood")
+
+    chain = []
+    if len(b0.body) != 1 or not isinstance(b0.body[0], ast.If):
+        raise Untranslatable("_set_config: single-key block is not one if/elif chain")
+    node = b0.body[0]
+    while True:
+        t = node.test
+        if not (isinstance(t, ast.Compare) and dotted(t.left) == "key" and len(t.ops) == 1 and isinstance(t.ops[0], ast.Eq)):
+            raise Untranslatable("_set_config: chain test is not `key == self.<CONST>`")
+        k = const_key(t.comparators[0])
+        if len(node.body) != 1 or not isinstance(node.body[0], ast.Assign) or dotted(node.body[0].value) != "value":
+            raise Untranslatable("_set_config: chain branch is not a single `<target> = value`")
+        chain.append((k, target_slot(node.body[0].targets[0], "value")))
+        if len(node.orelse) == 1 and isinstance(node.orelse[0], ast.If):
+            node = node.orelse[0]
+            continue
+        if not (len(node.orelse) == 1 and same(node.orelse[0], "self._session_kwargs[key] = value")):
+            raise Untranslatable("_set_config: final else of the chain changed")
+        break
+    mapkeys = []
+    for st in b1.body:
+        if not (isinstance(st, ast.If) and not st.orelse and isinstance(st.test, ast.Compare) and len(st.test.ops) == 1
+                and isinstance(st.test.ops[0], ast.In) and dotted(st.test.comparators[0]) == "map"
+                and len(st.body) == 1 and isinstance(st.body[0], ast.Assign)
+                and isinstance(st.body[0].value, ast.Subscript) and dotted(st.body[0].value.value) == "map"):
+            raise Untranslatable("_set_config: map block statement not understood")
+        k = const_key(st.test.left)
+        if const_key(st.body[0].value.slice) != k:
+            raise Untranslatable("_set_config: map block reads another key than it tests")
+        mapkeys.append((k, target_slot(st.body[0].targets[0], "map")))
+    return chain, mapkeys
+
+
+def builder_defaults(repo: str, engine: str, base_defaults: dict):
+    """DEFAULT_*_DIALECT of the engine's Builder (class constants override the base Builder's)"""
+    p = os.path.join(repo, "sqlframe", engine, "session.py")
+    tree, _ = py2v.load(p)
+    b = [n for n in ast.walk(tree) if isinstance(n, ast.ClassDef) and n.name == "Builder"][0]
+    d = dict(base_defaults)
+    for st in b.body:
+        if isinstance(st, ast.Assign) and len(st.targets) == 1 and isinstance(st.targets[0], ast.Name) \
+                and st.targets[0].id.startswith("DEFAULT_"):
+            if not (isinstance(st.value, ast.Constant) and isinstance(st.value.value, str)):
+                raise Untranslatable(f"sqlframe/{engine}/session.py: {st.targets[0].id} is not a string literal")
+            d[st.targets[0].id] = st.value.value
+        for fn in ("_set_config", "_set_session_properties"):
+            if isinstance(st, ast.FunctionDef) and st.name == fn:
+                raise Untranslatable(f"sqlframe/{engine}/session.py overrides Builder.{fn}")
+    out = []
+    for a in ("DEFAULT_INPUT_DIALECT", "DEFAULT_OUTPUT_DIALECT", "DEFAULT_EXECUTION_DIALECT"):
+        if d.get(a) not in DIALECT_IDS:
+            raise Untranslatable(f"sqlframe/{engine}: {a} = {d.get(a)!r} is not a known dialect name")
+        out.append(DIALECT_IDS[d[a]])
+    return out
 
 
 # ---------------------------------------------------------------------------------------------------
@@ -521,6 +625,7 @@ def generate(repo: str):
             selfref.append(e)
         if ca:
             cached.append(e)
+    dfl = {e: builder_defaults(repo, e, bs["defaults"]) for e, _ in engines}
     text = "\n".join([
         "(* generated by translate/c20_facts.py from " + repo + " -- do not edit *)",
         "From SF Require Import C20.Activate.",
@@ -541,7 +646,10 @@ def generate(repo: str):
         "  " + boollit(bs["singleton_global"]),
         "  " + listlit([strlit(x) for x in noconn]),
         "  " + listlit([strlit(x) for x in selfref]),
-        "  " + listlit([strlit(x) for x in cached]) + ".",
+        "  " + listlit([strlit(x) for x in cached]),
+        "  " + listlit([f"({strlit(k)}, {i})" for k, i in bs["chain"]]),
+        "  " + listlit([f"({strlit(k)}, {i})" for k, i in bs["mapkeys"]]),
+        "  " + listlit([f"({strlit(e)}, ({dfl[e][0]}, ({dfl[e][1]}, {dfl[e][2]})))" for e, _ in engines]) + ".",
         "",
     ])
     loc = "sqlframe/__init__.py"
@@ -555,6 +663,8 @@ def generate(repo: str):
         {"name": "activate_context: finally", "source": f"{loc}:{cx['line']}", "hash": cx["hash"], "value": cx["finally"]},
         {"name": "_BaseSession.__new__/Builder.getOrCreate", "source": "sqlframe/base/session.py", "hash": bs["hash"],
          "value": {"singleton_global": bs["singleton_global"], "conn_key": bs["builder_conn_key"]}},
+        {"name": "Builder._set_config chain / map block / default dialects", "source": "sqlframe/base/session.py",
+         "value": {"chain": bs["chain"], "mapkeys": bs["mapkeys"], "defaults": dfl}},
         {"name": "Builder.session per engine", "source": "sqlframe/<engine>/session.py",
          "value": {"noconn": noconn, "selfref": selfref, "cached_session": cached}},
     ] + [{"name": f"package sqlframe.{e}", "source": f"sqlframe/{e}/__init__.py", "hash": pk[e]["hash"],
@@ -563,6 +673,7 @@ def generate(repo: str):
     info = {"engines": [e for e, _ in engines], "prefix": dict(engines), "noconn": noconn, "selfref": selfref, "cached": cached,
             "ctx_finally": cx["finally"], "catch": deact["catch"], "clear_protected": deact["protected"],
             "forced": act["forced"], "reset": act["reset"], "singleton_global": bs["singleton_global"],
+            "chain": bs["chain"], "mapkeys": bs["mapkeys"], "defaults": dfl,
             "conn_key": act["conn_key"], "files": {e: pk[e]["files"] for e, _ in engines}}
     return text, facts, info
 
